@@ -610,6 +610,12 @@ func c8run(r *report.Run) {
 			}
 			b := batches[k]
 			got := c8goat(b.pkg, b.src, len(b.items))
+			if len(b.items) > 1 && strings.HasPrefix(got[0], "LOAD ") {
+				// one program the front end rejects takes the whole package with it: find out which by loading each on its own
+				for i, it := range b.items {
+					got[i] = c8goat(b.pkg, c8pkgSource(b.pkg, []string{it.body}), 1)[0]
+				}
+			}
 			for i, it := range b.items {
 				r.Eval(1)
 				r.Outcome(got[i])
